@@ -11,16 +11,22 @@ import (
 
 func main() {
 	var es []fsx.Entry
-	for _, dn := range []string{"v1.0", "v1.1", "v1.2", "conf.d", "conf.bak", "pkg", "pkg.old", "a.b.c", "a.b.d"} {
-		es = append(es, fsx.Entry{Path: dn, Dir: true}, fsx.Entry{Path: dn + "/file one.txt", Data: []byte(dn)}, fsx.Entry{Path: dn + "/inner.d", Dir: true})
+	p := ""
+	for i := 1; i <= 3; i++ {
+		if p == "" {
+			p = fmt.Sprintf("Some Directory %d", i)
+		} else {
+			p += fmt.Sprintf("/Some Directory %d", i)
+		}
+		es = append(es, fsx.Entry{Path: p, Dir: true})
 	}
-	for _, fn := range []string{"data.1", "data.2", "data.10", "readme", "readme.txt"} {
-		es = append(es, fsx.Entry{Path: fn, Data: []byte(fn)})
-	}
-	v, err := fsx.BuildImage("iso", es, fsx.Opt{Size: 4 << 20, IsoOpts: &iso9660.FinalizeOptions{}})
+	es = append(es, fsx.Entry{Path: p + "/file one.txt", Data: []byte("x")})
+	v, err := fsx.BuildImage("iso", es, fsx.Opt{Size: 4 << 20, IsoOpts: &iso9660.FinalizeOptions{Joliet: true}})
 	if err != nil {
 		panic(err)
 	}
+	ents, err := v.FS.ReadDir(".")
+	fmt.Println("root:", len(ents), err)
 	w, err := fsx.Walk(v.FS, 1<<20)
 	fmt.Println("walk err:", err)
 	var ps []string
